@@ -34,6 +34,10 @@ SPEC = {
         'AITB.Trie.assign_step',
         'AITB.Trie.permute_subset',
         'AITB.Trie.reconstruct_compatible',
+        'AITB.Trie.RIF_insert',
+        'AITB.Trie.RIF_erase',
+        'AITB.Trie.ft_filter_mem',
+        'AITB.Trie.fastertrie_refines_spec',
     ],
     'harness': 'harness/c20.cpp',
     'level': 'proof',
